@@ -273,6 +273,7 @@ def _c19_batch(tier, seed, n, bud, sweeps=False):
 def check_C19(tier, t0):
     import pickle
     import subprocess
+    import time
 
     seed = core.verif_seed()
     n = scale(2000 if tier == "quick" else 30000)  # per hash seed
@@ -306,11 +307,13 @@ def check_C19(tier, t0):
             env.pop("CVSSSIM_CHILD", None)
             env.update({"VERIF_KEEP_HASHSEED": "1", "PYTHONHASHSEED": str(hs), "CVSSSIM_C19_PARTIAL": path,
                         "VERIF_BUDGET_S": str(per_seed_budget)})
+            # the child's verdict lines go straight to our stdout (printed the moment they are established)
+            env["VERIF_HARD_LIMIT_S"] = str(max(30.0, core.hard_deadline() - time.time() - 20.0))
+            sys.stdout.flush()
             p = subprocess.run([os.path.join(core.VERIF, "check"), "C19", "--tier", tier], env=env,
-                               stdout=subprocess.PIPE, stderr=subprocess.STDOUT, timeout=per_seed_budget * 3 + 600)
+                               timeout=per_seed_budget * 3 + 900)
             if p.returncode != 0 or not os.path.exists(path):
-                raise core.HarnessError("C19 batch under PYTHONHASHSEED=%d failed (exit %d): %s" %
-                                        (hs, p.returncode, p.stdout.decode("utf-8", "replace")[-1500:]))
+                raise core.HarnessError("C19 batch under PYTHONHASHSEED=%d failed (exit %d)" % (hs, p.returncode))
             with open(path, "rb") as f:
                 agg, inf, rep = pickle.load(f)
         per_seed[str(hs)] = {"runs": agg.evaluations, "violation_signatures": len(agg.violations)}
